@@ -4,7 +4,18 @@
 package regex
 
 // At call sites with a constant pattern govc gives Match its meaning directly (membership + named groups of a
-// decomposition along the pattern, A9); the 12-line body over FindStringSubmatch/SubexpNames is trusted to implement that.
+// decomposition along the pattern, A9). The body is verified against the assumed contracts of regexp (regexp.spec):
+// no match gives (false, nil); on a match every named group is a key of the result and the value under a name is the
+// submatch of a group with that name; the unnamed groups and group 0 are left out; match[i] is always in range.
 //@ func Match
-//@   property C12
-//@   trusted "wrapper over regexp.FindStringSubmatch / SubexpNames (external); match[i] is in range because FindStringSubmatch returns NumSubexp()+1 entries on a match (A9)"
+//@   property C12 C02 C03 C11 C14
+//@   requires r != nil
+//@   ensures [matched_iff] result.0 == r.MatchString(s)
+//@   ensures [no_match_no_groups] !result.0 ==> result.1 == nil
+//@   ensures [every_named_group_is_a_key] result.0 ==> result.1 != nil && (forall i int :: 0 < i && i < len(r.SubexpNames()) && r.SubexpNames()[i] != "" ==> (r.SubexpNames()[i] in result.1))
+//@   ensures [values_are_submatches_of_that_name] result.0 ==> (forall n string :: (n in result.1) ==>
+//@        (exists i int :: 0 < i && i < len(r.SubexpNames()) && r.SubexpNames()[i] == n && result.1[n] == r.FindStringSubmatch(s)[i]))
+//@   loop 1
+//@     invariant [nonnil] result != nil
+//@     invariant [done] forall j int :: 0 < j && j < $i && r.SubexpNames()[j] != "" ==> (r.SubexpNames()[j] in result)
+//@     invariant [only] forall n string :: (n in result) ==> (exists j int :: 0 < j && j < $i && r.SubexpNames()[j] == n && result[n] == match[j])
